@@ -59,7 +59,9 @@ def replay(args):
         rep = json.load(f)
     prop = rep["property"]
     m = _setup(prop, "quick")
-    res = engine.runner_for(m)(m, rep["case"])
+    if hasattr(m, "prefork"):
+        m.prefork()
+    res = engine.runner_for(m, safe=True)(m, rep["case"])
     if res["harness_error"]:
         print("HARNESS-ERROR during replay:\n" + res["harness_error"])
         return 2
@@ -125,7 +127,9 @@ def check(args):
     print("vcheck property=%s tier=%s seed=%d runs=%d variant=%s build=%s" % (
         prop, tier, args.seed, n_runs, variant, os.path.basename(seams.build_dir())))
     sys.stdout.flush()
-    runner = engine.runner_for(m)
+    if hasattr(m, "prefork"):
+        m.prefork()
+    runner = engine.runner_for(m, safe=True)
     harness_errors = []
     pending = {}      # key -> list of (case, violation, seed, idx)
 
